@@ -13,7 +13,7 @@ From Coq Require Import String.
 From Coq Require Import List Arith Bool ZArith Reals Lra Lia Permutation.
 From Dadi Require Import Base.Num Base.NumR Model.Tridiag Model.Scheme Model.NDSweep Model.PhiManip
   Proofs.PhiManipSums Proofs.PhiManipDeposit Proofs.PhiManipND Proofs.PhiManipTable Proofs.PhiManipMisc
-  Proofs.PhiManipReorder.
+  Proofs.PhiManipReorder Proofs.PhiManipFilter.
 Import ListNotations.
 Local Open Scope R_scope.
 
@@ -203,3 +203,54 @@ Proof.
   apply C06_deposit_conserves; [cbn; lia | exact Hinc |].
   apply Rgt_not_eq. apply C06_deposit_defined_inside_grid; [cbn; lia | exact Hinc |].
   unfold nthF; cbn [nth length Nat.sub]; numR; lra. Qed.
+
+(** ** filter_pops (Proofs/PhiManipFilter.v).  [keep_ok d tokeep]: no repeats, every entry in 1..d;
+    [kept_axes] / [removed_axes]: the 0-based axes listed / not listed in tokeep, in increasing order;
+    [marg_axes sh gs axes phi]: integrate the listed axes out one after the other with [marginal_out]
+    (each number refers to the array as it is at that moment; shape and grid list lose the entry). *)
+(** accepted calls: the shape is the shape at the kept axes in INCREASING axis order whatever the order of tokeep,
+    the values are the iterated trapezoid marginal over the other axes, highest axis first *)
+Theorem C06_filter_pops_is_iterated_marginalisation : forall (shape : list nat) (g phi : list R) (tokeep : list nat),
+  (2 <= length g)%nat -> keep_ok (length shape) tokeep ->
+  filter_pops shape g tokeep phi =
+    Some (map (fun a => nth a shape 0%nat) (kept_axes (length shape) tokeep),
+          snd (marg_axes shape (repeat g (length shape)) (rev (removed_axes (length shape) tokeep)) phi)) /\
+  fst (marg_axes shape (repeat g (length shape)) (rev (removed_axes (length shape) tokeep)) phi) =
+    map (fun a => nth a shape 0%nat) (kept_axes (length shape) tokeep).
+Proof. exact filter_pops_is_iterated_marginalisation. Qed.
+Print Assumptions C06_filter_pops_is_iterated_marginalisation.
+
+(** refusal (list.remove raising ValueError) exactly when an entry of tokeep is outside 1..d or repeated; any Num type *)
+Theorem C06_filter_pops_refusal : forall (F : Type) (H : Num F) (shape : list nat) (g : list F) (tokeep : list nat) (phi : list F),
+  filter_pops shape g tokeep phi = None <-> ~ (NoDup tokeep /\ Forall (fun p => (1 <= p <= length shape)%nat) tokeep).
+Proof. exact (@filter_pops_refusal). Qed.
+Print Assumptions C06_filter_pops_refusal.
+
+(** Fubini for two axes k < r of any array whose grids have the lengths of its axes *)
+Theorem C06_marginal_out_commute : forall (sh : list nat) (gs : list (list R)) (phi : list R) (k r : nat),
+  Forall2 (fun (g : list R) n => length g = n) gs sh -> (k < r < length sh)%nat ->
+  marginal_out (remove_nth k sh) (remove_nth k gs) (r - 1) (marginal_out sh gs k phi) =
+  marginal_out (remove_nth r sh) (remove_nth r gs) k (marginal_out sh gs r phi) /\
+  remove_nth (r - 1) (remove_nth k sh) = remove_nth k (remove_nth r sh).
+Proof. exact marginal_out_commute. Qed.
+Print Assumptions C06_marginal_out_commute.
+
+(** any two orders of integrating any set of populations out give the same shape, grids and values.  The state
+    (labels, shape, grids, values) carries the original axis number of every current axis; [rm_label st a]
+    integrates out the axis labelled a, wherever it now is.  [wf_state]: labels distinct, one per axis, every
+    grid as long as its axis. *)
+Theorem C06_marginalisation_order_irrelevant : forall (l1 l2 : list nat), Permutation l1 l2 ->
+  forall st : mstate, wf_state st -> NoDup l1 -> incl l1 (st_labels st) ->
+  fold_left rm_label l1 st = fold_left rm_label l2 st.
+Proof. exact marginalisation_order_irrelevant. Qed.
+Print Assumptions C06_marginalisation_order_irrelevant.
+
+(** in particular filter_pops returns what ANY order of removing the unlisted populations returns *)
+Theorem C06_filter_pops_any_order : forall (shape : list nat) (g phi : list R) (tokeep order : list nat),
+  (2 <= length g)%nat -> Forall (fun n => n = length g) shape -> keep_ok (length shape) tokeep ->
+  Permutation order (removed_axes (length shape) tokeep) ->
+  filter_pops shape g tokeep phi =
+    Some (let r := fold_left rm_label order (seq 0 (length shape), shape, repeat g (length shape), phi) in
+          (snd (fst (fst r)), snd r)).
+Proof. exact filter_pops_any_order. Qed.
+Print Assumptions C06_filter_pops_any_order.
